@@ -31,6 +31,8 @@ type Ev struct {
 	// through which it is reached.  Its descriptions are in the anchor's terms (arguments
 	// substituted), its guards and locks include those of the call site.
 	Site ssa.Instruction
+	// Subst: for a helper event, how the helper's parameters read in the anchor's terms.
+	Subst map[*ssa.Parameter]string
 }
 
 // At is the instruction that locates the event inside the anchor function: the event's own
@@ -758,12 +760,34 @@ func (q *Q) ListRemoval(rule, key string, f *F, list, lock, badmsg string) {
 		elem := list + "[" + idx + "]"
 		okG := false
 		for _, a := range e.Guard {
-			if (strings.HasSuffix(a, " == "+elem) || strings.HasPrefix(a, elem+" == ")) && !strings.HasPrefix(a, "!") {
+			if isElemEq(a, elem) {
 				okG = true
 			}
 		}
 		if okG && (lock == "" || Sel{e}.AllHeld(lock)) {
 			hit = append(hit, e)
+		}
+	}
+	// the equivalent two-step form: copy(list[i:], list[i+1:]) ; list = list[:len(list)-1]
+	if len(hit) == 0 && len(st) == 1 && st[0].Args[0] == list+"[:(len("+list+") - 1)]" {
+		for _, c := range f.Ev("call", "copy") {
+			if len(c.Args) != 2 || !strings.HasPrefix(c.Args[0], list+"[") || !strings.HasSuffix(c.Args[0], ":]") {
+				continue
+			}
+			idx := strings.TrimSuffix(strings.TrimPrefix(c.Args[0], list+"["), ":]")
+			if c.Args[1] != list+"[("+idx+" + 1):]" || !evDominates(c, st[0]) {
+				continue
+			}
+			elem := list + "[" + idx + "]"
+			okG := false
+			for _, a := range st[0].Guard {
+				if isElemEq(a, elem) {
+					okG = true
+				}
+			}
+			if okG && (lock == "" || Sel{st[0]}.AllHeld(lock)) {
+				hit = append(hit, st[0])
+			}
 		}
 	}
 	q.r.Check(len(hit) == 1 && len(st) == 1, rule, key, st.Pos(q.p), list+" = append("+list+"[:i], "+list+"[i+1:]...) for the i whose element is the departing one, under the lock", badmsg+": "+argsOf(st)+" "+guardsOf(st))
@@ -855,6 +879,7 @@ func (p *Prog) EventsDeep(fn *ssa.Function) []*Ev {
 					continue
 				}
 				e.Site = site
+				e.Subst = descSubst
 				e.Guard = append(append([]string{}, pre...), e.Guard...)
 				e.Held = unionStr(held, e.Held)
 				out = append(out, e)
@@ -1036,4 +1061,61 @@ func (p *Prog) singleUse(fn *ssa.Function) bool {
 		}
 	}
 	return p.single[fn]
+}
+
+// isElemEq: the guard atom says "this element is the one looked for": elem == x, x == elem,
+// or bytes.Equal(elem, x) / bytes.Equal(x, elem).
+func isElemEq(a, elem string) bool {
+	if strings.HasPrefix(a, "!") {
+		return false
+	}
+	if strings.HasSuffix(a, " == "+elem) || strings.HasPrefix(a, elem+" == ") {
+		return true
+	}
+	if strings.HasPrefix(a, "bytes.Equal(") && (strings.HasPrefix(a, "bytes.Equal("+elem+",") || strings.HasSuffix(a, ","+elem+")")) {
+		return true
+	}
+	return false
+}
+
+// EachInstrDeep visits the instructions of f and of the private helpers it calls (static
+// calls within the package, two levels).
+func (f *F) EachInstrDeep(visit func(in ssa.Instruction)) {
+	if f.fn == nil {
+		return
+	}
+	seen := map[*ssa.Function]bool{}
+	var rec func(fn *ssa.Function, d int)
+	rec = func(fn *ssa.Function, d int) {
+		if seen[fn] {
+			return
+		}
+		seen[fn] = true
+		EachInstr(fn, func(in ssa.Instruction) {
+			visit(in)
+			if d >= 2 {
+				return
+			}
+			if c := CallOf(in); c != nil {
+				if _, isGo := in.(*ssa.Go); isGo {
+					return
+				}
+				if sc := c.StaticCallee(); sc != nil && sc.Blocks != nil && sc.Pkg == fn.Pkg && f.q.p.moduleFunc(sc) {
+					rec(sc, d+1)
+				}
+			}
+		})
+	}
+	rec(f.fn, 0)
+}
+
+// All: the events of the function and of the single-use private helpers it calls.
+func (f *F) All() []*Ev {
+	out := append([]*Ev{}, f.evs...)
+	for _, e := range f.deepEvs() {
+		if f.q.p.singleUse(e.In.Parent()) {
+			out = append(out, e)
+		}
+	}
+	return out
 }
